@@ -47,19 +47,30 @@ Proof.
   destruct (a <? 0) eqn:E; [apply Z.ltb_lt in E | apply Z.ltb_ge in E]; lia.
 Qed.
 
-(** an explicit output axis is range-checked against the output rank; the default is the
-    normalised input axis *)
+(** both an explicit and a defaulted output axis are range-checked against the output rank;
+    the default is the normalised input axis *)
 Theorem drep_axes_spec : forall ri ro ia oa ki ko,
   drep_axes ri ro ia oa = Some (ki, ko) ->
-  norm_axis ri ia = Some ki /\
+  norm_axis ri ia = Some ki /\ (ko <= ro)%nat /\
   match oa with None => ko = ki | Some z => norm_axis ro z = Some ko end.
 Proof.
   intros ri ro ia oa ki ko. unfold drep_axes.
   destruct (norm_axis ri ia) as [k|]; [|discriminate].
   destruct oa as [z|].
-  - destruct (norm_axis ro z) as [k'|]; simpl; [|discriminate].
+  - destruct (norm_axis ro z) as [k'|] eqn:E; simpl; [|discriminate].
+    intros H. injection H as <- <-. apply norm_axis_le in E. auto.
+  - destruct (ro <? k)%nat eqn:E; [discriminate|]. apply Nat.ltb_ge in E.
     intros H. injection H as <- <-. auto.
-  - intros H. injection H as <- <-. auto.
+Qed.
+
+(** a defaulted output axis beyond the operand's output rank is rejected at construction *)
+Theorem drep_default_axis_rejected : forall (v : opv) (n ia : Z) (si so : shape) (ki : nat),
+  ish (o_m v) = Plain si -> osh (o_m v) = Plain so ->
+  norm_axis (length si) ia = Some ki -> (length so < ki)%nat ->
+  op_drep_z v n ia None = None.
+Proof.
+  intros v n ia si so ki Hi Ho Hk Hlt. unfold op_drep_z. rewrite Hi, Ho. unfold drep_axes. rewrite Hk.
+  destruct (length so <? ki)%nat eqn:E; [reflexivity|]. apply Nat.ltb_ge in E. lia.
 Qed.
 
 Lemma vmap_insert (f : av -> option av) (ka kb : nat) (n : Z) (sa sb : shape) (da db : dt) :
@@ -75,20 +86,21 @@ Proof.
 Qed.
 
 (** For every operand that conforms, every replicate count and every admissible pair of
-    axes (negative or not, output axis explicit or defaulted) whose output position exists:
+    axes (negative or not, output axis explicit or defaulted; the constructor accepts them only
+    when the output position exists):
     the declared shapes are the operand's shapes with the replicate count inserted at the
     normalised positions, evaluation on the declared input yields exactly the declared
     output, adj maps the declared output back to the declared input, other shapes are rejected. *)
 Theorem drep_declared_eq_actual : forall (v w : opv) (n ia : Z) (oa : option Z) (si so : shape) (ki ko : nat),
   ish (o_m v) = Plain si -> osh (o_m v) = Plain so ->
   conforms v -> conforms_adj v ->
-  drep_axes (length si) (length so) ia oa = Some (ki, ko) -> (ko <= length so)%nat ->
+  drep_axes (length si) (length so) ia oa = Some (ki, ko) ->
   op_drep_z v n ia oa = Some w ->
   o_m w = mkmeta (Plain (insert_at ki n si)) (Plain (insert_at ko n so)) (idt (o_m v)) (odt (o_m v)) /\
   conforms w /\ conforms_adj w /\ rejects w.
 Proof.
-  intros v w n ia oa si so ki ko Hi Ho Hc Ha Hax Hko H.
-  pose proof (drep_axes_spec _ _ _ _ _ _ Hax) as [Hki _]. apply norm_axis_le in Hki.
+  intros v w n ia oa si so ki ko Hi Ho Hc Ha Hax H.
+  pose proof (drep_axes_spec _ _ _ _ _ _ Hax) as [Hki [Hko _]]. apply norm_axis_le in Hki.
   unfold op_drep_z in H. rewrite Hi, Ho, Hax in H. unfold op_drep in H. rewrite Hi, Ho in H.
   destruct (length si <? ki)%nat eqn:E; [apply Nat.ltb_lt in E; lia|].
   unfold mk_generic in H. cbn [odflt] in H.
@@ -114,25 +126,24 @@ Proof.
       apply nshape_eqb_eq in E2. congruence.
 Qed.
 
-(** an explicit output axis always satisfies the side condition of the theorem *)
-Corollary drep_explicit_axis_in_range : forall ri ro ia z ki ko,
-  drep_axes ri ro ia (Some z) = Some (ki, ko) -> (ko <= ro)%nat.
+(** every accepted pair of axes is in range of the respective ranks *)
+Corollary drep_axes_in_range : forall ri ro ia oa ki ko,
+  drep_axes ri ro ia oa = Some (ki, ko) -> (ki <= ri)%nat /\ (ko <= ro)%nat.
 Proof.
-  intros ri ro ia z ki ko H. apply drep_axes_spec in H as [_ H]. apply norm_axis_le in H. assumption.
+  intros ri ro ia oa ki ko H. apply drep_axes_spec in H as [H1 [H2 _]]. apply norm_axis_le in H1. auto.
 Qed.
 
 (** the declared metadata are those of the documented rule *)
 Theorem drep_declared_eq_spec : forall (e : ox) (v w : opv) (n ia : Z) (oa : option Z) (si so : shape) (ki ko : nat),
   build e = Some v -> spec e = Some (o_m v) ->
   ish (o_m v) = Plain si -> osh (o_m v) = Plain so ->
-  drep_axes (length si) (length so) ia oa = Some (ki, ko) -> (ko <= length so)%nat ->
+  drep_axes (length si) (length so) ia oa = Some (ki, ko) ->
   build (XDRep e n ia oa) = Some w ->
   spec (XDRep e n ia oa) = Some (o_m w).
 Proof.
-  intros e v w n ia oa si so ki ko Hb Hs Hi Ho Hax Hko H.
+  intros e v w n ia oa si so ki ko Hb Hs Hi Ho Hax H.
   cbn [build] in H. rewrite Hb in H. cbn [obind] in H.
   cbn [spec]. rewrite Hs, Hi, Ho, Hax.
-  destruct (length so <? ko)%nat eqn:E; [apply Nat.ltb_lt in E; lia|].
   unfold op_drep_z in H. rewrite Hi, Ho, Hax in H. unfold op_drep in H. rewrite Hi, Ho in H.
   pose proof (drep_axes_spec _ _ _ _ _ _ Hax) as [Hki _]. apply norm_axis_le in Hki.
   destruct (length si <? ki)%nat eqn:E1; [apply Nat.ltb_lt in E1; lia|].
